@@ -119,6 +119,39 @@ def run(ctx):
                 '0..p+2; scalar, contiguous and strided array arguments; routes: active_deriv, active_ev, single_ev, collocation(_info), '
                 'collocation_derivs(_info), ev/deriv (splev), BSplineFunc.grid_eval/jacobian/hessian/pointwise_* in 1-D and 2-D.  '
                 'non-trivial = degree >= 1 and >= 2 spans.  plus a probe of degrees 13..16 (C int `fac`).')
+    # ---- probe (subprocess, first): scipy's splev(der>=1) supports degree <= 5 only (FITPACK splder) and kills the interpreter beyond;
+    # bspline.deriv used to delegate to it for every degree (repaired in /repo 3311b35).  Only if the probe passes is
+    # bspline.deriv called in-process for p > 5 below.
+    import subprocess, sys as _sys, json as _json
+    from .common import REPO, PY
+    code = ("import sys, json, numpy as np\n"
+            "sys.path.insert(0, %r)\n"
+            "from pyiga import bspline\n"
+            "p = int(sys.argv[1]); kv = bspline.make_knots(p, 0.0, 1.0, 3)\n"
+            "c = np.arange(kv.numdofs) ** 2 * 1.0; x = np.array([0.0, 0.3, 0.5, 1.0])\n"
+            "y = bspline.deriv(kv, c, 1, x); z = bspline.collocation_derivs(kv, x, 1)[1] @ c\n"
+            "print(json.dumps({'deriv': y.tolist(), 'collocation': z.tolist()}))\n") % REPO
+    crash = None
+    for pp in range(6, 13):
+        pr = subprocess.run([PY, '-c', code, str(pp)], stdout=subprocess.PIPE, stderr=subprocess.PIPE, text=True, timeout=300)
+        ctx.count('bspline.deriv subprocess probes (p=6..12)')
+        bad = None
+        if pr.returncode != 0:
+            bad = 'the interpreter dies with exit status %d' % pr.returncode
+        else:
+            try:
+                o = _json.loads(pr.stdout.strip().split('\n')[-1])
+                if not np.allclose(o['deriv'], o['collocation'], rtol=1e-9, atol=0):
+                    bad = 'returns %s, derivative collocation gives %s' % (o['deriv'], o['collocation'])
+            except Exception:
+                bad = 'unparsable output'
+        if bad and crash is None:
+            crash = {'call': 'bspline.deriv(make_knots(%d, 0.0, 1.0, 3), arange(n)**2, 1, [0, .3, .5, 1])' % pp, 'p': pp, 'observed': bad}
+    deriv_safe = crash is None
+    if crash is not None:
+        ctx.violation('deriv-splev-degree-gt-5', 'bspline.deriv (splev with der>=1) at degree %d: %s — %s' % (crash['p'], crash['observed'], crash['call']), crash, True)
+
+
     S = Stream(ctx, 'drv_c02')
     nkv = 150 if quick else 4000
     npts = 0
@@ -304,9 +337,8 @@ def run(ctx):
             c = rng.normal(size=KV.numdofs) * 10.0 ** rng.integers(-2, 3)
         cd = plist(c, frac)
         Fn = bspline.BSplineFunc(KV, c)
-        # scipy's FITPACK derivative routine (splder) has fixed work arrays for degree <= 5: bspline.deriv with p >= 6 is probed
-        # in a subprocess below (it can crash the interpreter), never in-process
-        kmax_spl = min(p, 3) if p <= 5 else 0
+        # bspline.deriv for p >= 6 is called in-process only if the subprocess probe above found it safe
+        kmax_spl = min(p, 3) if (p <= 5 or deriv_safe) else 0
         sroutes = [('splev[der=%d]' % kk, F_SPLEV, kk, (lambda kk=kk: bspline.ev(KV, c, us) if kk == 0 else bspline.deriv(KV, c, kk, us)))
                    for kk in range(kmax_spl + 1)]
         sroutes += [('grid_eval', F_TP, 0, lambda: Fn.grid_eval((us,))), ('grid_jacobian', F_TP, 1, lambda: Fn.grid_jacobian((us,))),
@@ -415,35 +447,6 @@ def run(ctx):
                       % (overflow['first_wrong_derivative_order'], overflow['p'], overflow['call']), overflow, True)
         ctx.notes.append('high-degree probe: requests showing exactly the int32-overflow signature are reported under their own key, all others are diffed')
     hi.run('bsp-high-degree', THEOREMS)
-
-    # ---- probe (subprocess): bspline.deriv delegates to scipy's splev(der>=1), whose FITPACK routine supports degree <= 5 only
-    import subprocess, sys as _sys, json as _json
-    from .common import REPO, PY
-    code = ("import sys, json, numpy as np\n"
-            "sys.path.insert(0, %r)\n"
-            "from pyiga import bspline\n"
-            "p = int(sys.argv[1]); kv = bspline.make_knots(p, 0.0, 1.0, 3)\n"
-            "c = np.arange(kv.numdofs) ** 2 * 1.0; x = np.array([0.0, 0.3, 0.5, 1.0])\n"
-            "y = bspline.deriv(kv, c, 1, x); z = bspline.collocation_derivs(kv, x, 1)[1] @ c\n"
-            "print(json.dumps({'deriv': y.tolist(), 'collocation': z.tolist()}))\n") % REPO
-    crash = None
-    for pp in range(6, 13):
-        pr = subprocess.run([PY, '-c', code, str(pp)], stdout=subprocess.PIPE, stderr=subprocess.PIPE, text=True, timeout=300)
-        ctx.count('bspline.deriv subprocess probes (p=6..12)')
-        bad = None
-        if pr.returncode != 0:
-            bad = 'the interpreter dies with exit status %d' % pr.returncode
-        else:
-            try:
-                o = _json.loads(pr.stdout.strip().split('\n')[-1])
-                if not np.allclose(o['deriv'], o['collocation'], rtol=1e-9, atol=0):
-                    bad = 'returns %s, derivative collocation gives %s' % (o['deriv'], o['collocation'])
-            except Exception:
-                bad = 'unparsable output'
-        if bad and crash is None:
-            crash = {'call': 'bspline.deriv(make_knots(%d, 0.0, 1.0, 3), arange(n)**2, 1, [0, .3, .5, 1])' % pp, 'p': pp, 'observed': bad}
-    if crash is not None:
-        ctx.violation('deriv-splev-degree-gt-5', 'bspline.deriv (splev with der>=1) at degree %d: %s — %s' % (crash['p'], crash['observed'], crash['call']), crash, True)
 
     S.run('bsp', THEOREMS)
 
